@@ -29,8 +29,16 @@ Walks == <<
   <<"hex", 0, 4095>>,         \* address text
   <<"arg", 0, 13121>>,        \* bearing: argument of a complex product (9^4 pairs x 2 scales)
   <<"polar", 0, 1023>>,       \* speed / track cells along the axes and the diagonal
-  <<"mb05", 0, 4095>>         \* DF20: type code / altitude read off the assembled MB field
+  <<"mb05", 0, 4095>>,        \* DF20: type code / altitude read off the assembled MB field
+  <<"rim", 0, 0>>             \* envelope rims: last accepted code inside, the next one outside
 >>
+
+(* the rim of |GS - TAS| <= 200 kt as the generator enumerates it            *)
+GsTasRimMC(j) ==
+  IF j < 161 THEN [tas |-> 40 + j, gs |-> 140 + j]
+  ELSE IF j < 312 THEN [gs |-> j - 161, tas |-> j - 161 + 100]
+  ELSE IF j < 474 THEN [tas |-> 40 + (j - 312), gs |-> 40 + (j - 312) + 99]
+  ELSE [gs |-> j - 474, tas |-> j - 474 + 99]
 
 VARIABLES w, x
 vars == <<w, x>>
@@ -180,6 +188,46 @@ MB05 ==
        /\ Label05Allowed(c) => /\ Label05Ok("l05", c, [bds05 |-> <<3, 1>>, alt05 |-> <<1, AC12Ft(x)>>])
                                 /\ ~Label05Ok("l05", other, [bds05 |-> <<3, 1>>, alt05 |-> <<1, AC12Ft(x)>>])
                                 /\ (AC12Ft(x) > 25 => ~Label05Ok("l05", c, [bds05 |-> <<3, 1>>, alt05 |-> <<1, AC12Ft(x) - 25>>]))
+
+(* every rim constant of FieldCodec is the last code that satisfies its    *)
+(* inequality of Plausible40/50/60 and the next code violates it            *)
+RimConstants ==
+  Kind = "rim" =>
+    LET b50 == [rs |-> 0, rsg |-> 0, roll |-> 0, ts |-> 0, tsg |-> 0, trk |-> 0, gss |-> 0, gs |-> 0,
+                trs |-> 0, trsg |-> 0, rate |-> 0, tass |-> 0, tas |-> 0]
+        b60 == [hs |-> 0, hsg |-> 0, hdg |-> 0, iss |-> 0, ias |-> 0, mas |-> 0, mach |-> 0,
+                bs |-> 0, bsg |-> 0, baro |-> 0, vs |-> 0, vsg |-> 0, ivv |-> 0]
+        b40 == [ms |-> 0, malt |-> 0, fst |-> 0, falt |-> 0]
+        Roll(y) == [b50 EXCEPT !.rs = 1, !.rsg = Enc9(y).sg, !.roll = Enc9(y).m]
+        GsTas(g, t) == [b50 EXCEPT !.gss = 1, !.gs = g, !.tass = 1, !.tas = t]
+        IasMach(i, m) == [b60 EXCEPT !.iss = 1, !.ias = i, !.mas = 1, !.mach = m]
+        Baro(y) == [b60 EXCEPT !.bs = 1, !.bsg = Enc9(y).sg, !.baro = Enc9(y).m]
+        Ivv(y) == [b60 EXCEPT !.vs = 1, !.vsg = Enc9(y).sg, !.ivv = Enc9(y).m]
+    IN /\ RollMax50 = 284 /\ Plausible50(Roll(RollMax50)) /\ Plausible50(Roll(-RollMax50))
+       /\ ~Plausible50(Roll(RollMax50 + 1)) /\ ~Plausible50(Roll(-RollMax50 - 1))
+       /\ TwosC(Enc9(-RollMax50).sg, Enc9(-RollMax50).m, 9) = -RollMax50
+       /\ GsMax50 = 300 /\ Plausible50([b50 EXCEPT !.gss = 1, !.gs = GsMax50])
+       /\ ~Plausible50([b50 EXCEPT !.gss = 1, !.gs = GsMax50 + 1])
+       /\ Plausible50(GsTas(TasMin50, TasMin50)) /\ ~Plausible50(GsTas(TasMin50 - 1, TasMin50 - 1))
+       /\ Plausible50(GsTas(TasMax50, TasMax50)) /\ ~Plausible50(GsTas(TasMax50, TasMax50 + 1))
+       /\ GsTasDiffMax50 = 100
+       /\ Plausible50(GsTas(200, 100)) /\ Plausible50(GsTas(100, 200)) /\ ~Plausible50(GsTas(201, 100))
+       /\ ~Plausible50(GsTas(100, 201))
+       /\ "bds50:|GS-TAS|<=200kt" \in SeqRange(Rims("tt50", GsTas(200, 100)))
+       /\ "bds50:|GS-TAS|<=200kt" \notin SeqRange(Rims("tt50", GsTas(199, 100)))
+       /\ \A j \in 0..625 : Plausible50(GsTas(GsTasRimMC(j).gs, GsTasRimMC(j).tas))
+       /\ Plausible60(IasMach(1, 1)) /\ ~Plausible60(IasMach(0, 1)) /\ ~Plausible60(IasMach(1, 0))
+       /\ Plausible60(IasMach(IasMax60, MachMax60)) /\ ~Plausible60(IasMach(IasMax60 + 1, MachMax60))
+       /\ ~Plausible60(IasMach(IasMax60, MachMax60 + 1))
+       /\ Plausible60(IasMach(250, 99)) /\ Plausible60(IasMach(251, 100)) /\ ~Plausible60(IasMach(251, 99))
+       /\ Plausible60(IasMach(150, 126)) /\ Plausible60(IasMach(149, 125)) /\ ~Plausible60(IasMach(149, 126))
+       /\ VRateMax60 = 187 /\ Plausible60(Baro(VRateMax60)) /\ Plausible60(Baro(-VRateMax60))
+       /\ ~Plausible60(Baro(VRateMax60 + 1)) /\ ~Plausible60(Baro(-VRateMax60 - 1))
+       /\ Plausible60(Ivv(-VRateMax60)) /\ ~Plausible60(Ivv(-VRateMax60 - 1))
+       /\ Alt40Max = 2812 /\ Plausible40([b40 EXCEPT !.ms = 1, !.malt = Alt40Max])
+       /\ ~Plausible40([b40 EXCEPT !.ms = 1, !.malt = Alt40Max + 1])
+       /\ ~Plausible40([b40 EXCEPT !.fst = 1, !.falt = Alt40Max + 1])
+       /\ SelAlt40Meaningful(Alt40Max) /\ SelAlt40Meaningful(Alt40Max - 6)
 
 (* polar cells: the exact speed and bearing of the centre are inside the  *)
 (* cell, one full step away is outside                                     *)
